@@ -14,6 +14,10 @@ stdin : JSON list of jobs; stdout: JSON list of results.
         lint      without -q
         copy      the same files copied to another directory (other absolute path)
         nooutdir  no outdir argument (written next to the copy's source)
+        decoycwd  cwd = an unrelated directory holding DIFFERENT files ("decoys") under the relative names
+                  the schema imports (the parent directory used by rel/dots/nooutdir holds them too)
+        pre_*     the output directory is pre-filled: empty files / first 2/3 of the lines of the expected
+                  output / the output plus trailing lines / garbage / the same output
       reports the base hashes, every variant that differs, and any absolute path / cwd found
       inside generated text.
 
@@ -85,6 +89,13 @@ def job_fresh(job):
     cpy = os.path.join(d, "elsewhere", "deeper", "copy")
     write_files(src, job["files"])
     write_files(cpy, job["files"])
+    # decoys: DIFFERENT files under the relative names the schema imports, placed in working directories
+    # the compiler is started from (never next to the importing files): an import must not pick them up
+    decoy_cwd = os.path.join(d, "unrelated", "cwd")
+    os.makedirs(decoy_cwd, exist_ok=True)
+    if job.get("decoys"):
+        write_files(decoy_cwd, job["decoys"])
+        write_files(d, job["decoys"])
     main = job["main"]
     res = {"id": job["id"], "targets": []}
     for lang, opt in job["targets"]:
@@ -120,6 +131,13 @@ def job_fresh(job):
         variants.append(("copy", dict(inp=os.path.join(cpy, main), out=os.path.join(d, "out", "copy_" + tag), quiet=True,
                                       cwd=cpy, seed=0)))
         variants.append(("nooutdir", dict(inp=os.path.join(cpy, main), out=None, quiet=True, cwd=d, seed=0, outabs=cpy)))
+        variants.append(("decoycwd", dict(inp=os.path.join(src, main), out=os.path.join(d, "out", "decoycwd_" + tag),
+                                          quiet=True, cwd=decoy_cwd, seed=0)))
+        # what the output directory holds BEFORE the run must not matter
+        if rc == 0 and base:
+            for pre in ("pre_empty", "pre_prefix", "pre_longer", "pre_garbage", "pre_same"):
+                variants.append((pre, dict(inp=os.path.join(src, main), out=os.path.join(d, "out", pre + "_" + tag),
+                                           quiet=True, cwd=src, seed=0, pre=pre)))
         pick = job.get("variants")
         if pick is not None:
             only = job.get("variant_targets")        # path variants on these target indexes only (None: all)
@@ -134,6 +152,17 @@ def job_fresh(job):
                         os.remove(os.path.join(cpy, n))
             else:
                 os.makedirs(v.get("outabs") or v["out"], exist_ok=True)
+            if v.get("pre"):
+                for name in base:
+                    old = open(os.path.join(base_out, name), errors="replace").read()
+                    lines = old.splitlines(True)
+                    new = {"pre_empty": "",
+                           "pre_prefix": "".join(lines[:max(1, (2 * len(lines)) // 3)]),   # an earlier, shorter revision
+                           "pre_longer": old + "\n\n" + "".join(lines[-3:]),              # a later, longer revision
+                           "pre_garbage": "\x00\x01 not an output file\n" * 3,
+                           "pre_same": old}[v["pre"]]
+                    with open(os.path.join(v["out"], name), "w") as f:
+                        f.write(new)
             rc2, err2 = cli(lang, opt, v["inp"], v["out"], v["quiet"], v["cwd"], v["seed"])
             got = hash_dir(v.get("outabs") or v["out"])
             t["variants"] += 1
